@@ -185,7 +185,7 @@ def fixed_cases():
                         "op": ["Midpoint"] + list(flags), "fresh": FRESH})
             out.append({"tree": nw(bal, [None, u, u, u, u, u, u]), "rooted": rooted, "pattern": "unit",
                         "op": ["Reseed", 0] + list(flags), "fresh": FRESH})
-        # mixed None lengths: basal collapse swallows None + x
+        # mixed None lengths: the basal collapse used to swallow None + x (repaired by 1fc3f136)
         out.append({"tree": nw(bal, [None, None, u, u, 2 * u, u, u]), "rooted": rooted, "pattern": "mixed",
                     "op": ["Reseed", 0, False, True, True], "fresh": FRESH})
         out.append({"tree": nw(bal, [None, None, u, u, 2 * u, u, u]), "rooted": rooted, "pattern": "mixed",
@@ -450,10 +450,8 @@ def oracle(case, obs):
             if tl0 != tl1 or d0 != d1:
                 what = "total length %s -> %s" % (tl0 * trees.UNIT, tl1 * trees.UNIT) if tl0 != tl1 else \
                     "leaf-to-leaf distances changed, e.g. %s" % ([(k, d0[k] * trees.UNIT, d1.get(k, 0) * trees.UNIT) for k in d0 if d0[k] != d1.get(k)][:2],)
-                if cls == "mixed":
-                    return ("%s on a tree with some edge lengths None and others defined: %s" % (kind, what),
-                            "mixed-none-lengths-lose-length")
-                return ("%s: %s" % (kind, what), "lengths:" + kind)
+                # (mixed None / defined lengths are no exception since fix 1fc3f136)
+                return ("%s (edge lengths: %s): %s" % (kind, cls, what), "lengths:" + kind)
     # ---- rooting flag ----
     r0 = case["rooted"]
     if kind in HARD and rooted_after is not True:
@@ -500,7 +498,7 @@ def oracle(case, obs):
                 if dep_new[b] != want:
                     return ("reroot_at_edge: leaf t%s on the tail side is at %s from the new root, expected %s"
                             % (b, dep_new[b] * trees.UNIT, want * trees.UNIT), "edge-position-tail")
-    if kind == "Midpoint" and cls != "mixed":
+    if kind == "Midpoint":
         d1 = o_dists(out)
         dep = o_depths(out)
         if d1:
